@@ -185,7 +185,7 @@ def judge(sc, case, snaps, published):
 
     pending_traffic_expect = None
     for f in frames:
-        is_pub = f.send_time == int(f.send_time) and int(f.send_time) in sc.pubs
+        is_pub = f.pid in sc.pubs
         if not is_pub and f.msg_type == W.MT_MESSAGE_TRAFFIC and f.src_mod == 0 and len(f.payload) == W.S_TRAFFIC.size:
             u = W.S_TRAFFIC.unpack(f.payload)
             seqno, sub = u[0], u[1]
